@@ -40,6 +40,7 @@ Verdict(kty, private, m, mut) ==
         ELSE IF mut \in {"int", "null", "list", "obj", "bool", "bad_b64"} THEN "refuse"
         ELSE IF kty = "RSA" /\ m \in {"p", "q", "dp", "dq", "qi"} /\ mut = "delete" THEN "refuse"    \* partial CRT parameters
         ELSE IF kty = "RSA" /\ m = "d" /\ mut = "delete" THEN "either"
+        ELSE IF m = "d" /\ mut = "empty" THEN "refuse"      \* no private value of any type is the empty octet string; taking the key for a public one is not what was given
         ELSE "either")
   ELSE IF m = "use" THEN (IF mut \in {"int", "null", "list", "obj", "bool", "unknown_value"} THEN "refuse"
                            ELSE IF mut = "contradict" THEN "refuse" ELSE "either")
